@@ -1,1 +1,429 @@
-import AnyioModel.Kernel.Step
+/-
+C03  "Level-triggered cancellation: nothing stays blocked in a cancelled scope" on the kernel model
+(`Kernel/{Types,Scope,Step}.lean`: asyncio tasks/futures/loop cycles + `CancelScope`, `TaskGroup`).
+
+The mechanism is `_deliver_cancellation` (`deliverGo` / `deliver`), rescheduled once per loop cycle
+while it still finds a task that is not done, and restarted (`_restart_cancellation_in_parent`,
+the repaired `_spawn`) whenever something moves back into its reach.
+
+* `reachDown st o c` (`Kernel/DeliverInv.lean`) is the declarative reading of "a delivery from `o`
+  reaches scope `c`": `c = o`, or walking up from `c` every scope strictly below `o` is active,
+  not shielded and not itself cancelled, and the walk meets `o` (`C03_reachDown_iff`: the same over
+  the `chain` of `c`).  `needs st o`: some task that is not done sits in such a scope.
+  `hitSet st o t`: `t` sits in such a scope `c` and the loop body's test `hitCancels st c t` holds
+  (`C03_hitCancels_iff`: not done, not `_must_cancel`, not the running task, started or host,
+  waiter not done).
+* `C03_deliverGo_spec`: the top-down walk of the code does exactly that (pure, under `WF`/`BW`).
+* `C03_delivery_live`: the invariant finding F4 violated, for every reachable state.
+* `C03_deliver_hits` / `C03_deliver_reschedules`: what one `.run (.deliver o)` does.
+* `C03_cycle`, `C03_chkif`, `C03_latency_partial`.
+
+`active` is part of `reachDown`: the code walks `children`, which holds active scopes only, and
+"every ancestor of an active scope is active" is not among the established invariants of the model
+(`WF` keeps the weak form only); tasks sit in active scopes in every run of the real code.
+
+Invariant and lemmas: `Kernel/DeliverInv.lean` .. `DeliverInv7.lean`.
+-/
+import AnyioModel.Kernel.DeliverInv7
+import AnyioModel.Kernel.CountInv5
+
+namespace AnyioModel.Kernel
+
+/-! ### 1. the walk of `_deliver_cancellation`, top-down vs. bottom-up -/
+
+/-- **C03_reachDown_iff.**  `reachDown` over the chain of `c` (the scope itself followed by its
+ancestors): `o` is met at some position of the chain, and every scope before that position is
+active, not shielded and not cancelled. -/
+theorem C03_reachDown_iff {st : State} (w : WF st) (o c : Nat) :
+    reachDown st o c ↔
+      c = o ∨ ∃ i, ∃ h : i < (st.scopes c).chain.length, (st.scopes c).chain[i] = o ∧
+        ∀ j (hj : j < i),
+          (st.scopes ((st.scopes c).chain[j]'(Nat.lt_trans hj h))).active = true ∧
+          (st.scopes ((st.scopes c).chain[j]'(Nat.lt_trans hj h))).shield = false ∧
+          (st.scopes ((st.scopes c).chain[j]'(Nat.lt_trans hj h))).cancelCalled = false := by
+  constructor
+  · exact reachDownChain_of_reachDown w
+  · rintro (rfl | h)
+    · exact .refl
+    · exact reachDown_of_reachDownChain w _ c rfl h
+
+/-- **C03_hitCancels_iff.**  When the loop body of `_deliver_cancellation` calls `task.cancel()`. -/
+theorem C03_hitCancels_iff (st : State) (s t : Nat) :
+    hitCancels st s t = true ↔
+      (st.tasks t).st ≠ .done ∧ (st.tasks t).mustCancel = false ∧ st.running ≠ some t ∧
+      ((st.scopes s).host = some t ∨ (st.tasks t).st ≠ .created) ∧
+      ∀ f, (st.tasks t).st ≠ .woken f :=
+  hitCancels_iff st s t
+
+/-- **C03_deliverGo_frame.**  (i) The walk changes nothing but task cancellation state, futures,
+`ready` (`Frame`: all structural scope fields, `groups`, `futWaiter`, counters, clock, `running`,
+`timers`, `cur` unchanged; tasks only `blocked f → woken f` + cancellation fields; futures only
+pending → done; `ready` only grows), no scope other than the origin at all, and no
+`_cancel_handle`. -/
+theorem C03_deliverGo_frame (st : State) (n o s : Nat) :
+    Frame st (deliverGo n st o s).1 ∧
+    (∀ x, x ≠ o → (deliverGo n st o s).1.scopes x = st.scopes x) ∧
+    (∀ x, ((deliverGo n st o s).1.scopes x).deliver = (st.scopes x).deliver) :=
+  ⟨frame_deliverGo n st o s, fun _ hx => deliverGo_scope_other n st o s hx,
+    fun x => deliverGo_deliverFlag n st o s x⟩
+
+/-- **C03_deliverGo_spec.**  (ii) + (iii), for every well-formed state in which blocked tasks are
+the waiters of their (pending) futures: with the fuel `nScopes + 1` that `deliver` uses,
+* the returned flag ("should retry") is true iff some task that is not done sits in a scope the
+  delivery reaches;
+* `Task.cancel()` is called exactly once on each task of `hitSet st o` — one more `nAnyio`; a task
+  blocked on `f` becomes `woken f`, `f` is cancelled with the scope's message and its wake-up is
+  scheduled; any other task keeps its state and gets `_must_cancel` with the scope's message —
+* and the record of every other task is unchanged. -/
+theorem C03_deliverGo_spec {st : State} (w : WF st) (bw : BW st) (o : Nat) :
+    ((deliverGo (st.nScopes + 1) st o o).2 = true ↔ needs st o) ∧
+    ∀ t,
+      (hitSet st o t →
+        ((deliverGo (st.nScopes + 1) st o o).1.tasks t).nAnyio = (st.tasks t).nAnyio + 1 ∧
+        (∀ f, (st.tasks t).st = .blocked f →
+          ((deliverGo (st.nScopes + 1) st o o).1.tasks t).st = .woken f ∧
+          (deliverGo (st.nScopes + 1) st o o).1.futs f = .cancelled true ∧
+          Handle.wakeup t ∈ (deliverGo (st.nScopes + 1) st o o).1.ready) ∧
+        ((∀ f, (st.tasks t).st ≠ .blocked f) →
+          ((deliverGo (st.nScopes + 1) st o o).1.tasks t).st = (st.tasks t).st ∧
+          ((deliverGo (st.nScopes + 1) st o o).1.tasks t).mustCancel = true ∧
+          ((deliverGo (st.nScopes + 1) st o o).1.tasks t).mcAnyio = true)) ∧
+      (¬ hitSet st o t → (deliverGo (st.nScopes + 1) st o o).1.tasks t = st.tasks t) := by
+  refine ⟨deliverGo_flag w.tree o, fun t => ?_⟩
+  obtain ⟨h1, h2⟩ := deliverGo_task w.tree bw o t
+  refine ⟨fun hh => ?_, h2⟩
+  have r := h1 hh
+  refine ⟨r.nAnyio, fun f hf => ?_, r.other⟩
+  obtain ⟨a, b, c, _⟩ := r.blocked f hf
+  exact ⟨a, b, c⟩
+
+/-! ### 2. the liveness invariant -/
+
+/-- **C03_blocked_waits.**  In every reachable state a task that is `blocked f` is the registered
+waiter of `f`, and `f` is pending (so `Task.cancel()` on it does cancel `f` and wake the task). -/
+theorem C03_blocked_waits {st : State} (hr : Reach st) (t f : Nat)
+    (hb : (st.tasks t).st = .blocked f) : st.futWaiter f = some t ∧ st.futs f = .pending :=
+  (di_reach hr).bw t f hb
+
+/-- **C03_delivery_live.**  In every reachable state, for every scope `o` that is active and
+cancelled: if some task that is not done sits in a scope that a delivery from `o` reaches, then
+`o`'s `_cancel_handle` is set; and whenever a `_cancel_handle` is set, a `deliver o` callback is
+scheduled for this or the next loop cycle.  (Finding F4 was a reachable state violating this: the
+delivery had gone idle while the host sat in a shielded scope, and `_spawn` added a task.) -/
+theorem C03_delivery_live {st : State} (hr : Reach st) (o : Nat) :
+    ((st.scopes o).active = true → (st.scopes o).cancelCalled = true → needs st o →
+      (st.scopes o).deliver = true ∧ Handle.deliver o ∈ st.ready ++ st.cur) ∧
+    ((st.scopes o).deliver = true → Handle.deliver o ∈ st.ready ++ st.cur) := by
+  have d := di_reach hr
+  refine ⟨fun ha hc hn => ?_, d.sched o⟩
+  have := d.live o ha hc hn
+  exact ⟨this, d.sched o this⟩
+
+/-- the same per task: a task that is not done, whose scope is reached from an active cancelled
+scope `o`, has a delivery from `o` scheduled -/
+theorem C03_delivery_live_task {st : State} (hr : Reach st) {o c t : Nat}
+    (ha : (st.scopes o).active = true) (hc : (st.scopes o).cancelCalled = true)
+    (hrd : reachDown st o c) (ht : t ∈ (st.scopes c).tasks) (hd : (st.tasks t).st ≠ .done) :
+    Handle.deliver o ∈ st.ready ++ st.cur :=
+  ((C03_delivery_live hr o).1 ha hc ⟨c, t, hrd, ht, hd⟩).2
+
+/-! ### 3. one run of the delivery callback -/
+
+/-- **C03_deliver_hits.**  `.run (.deliver o)` in a reachable state: every task of `hitSet st o`
+that was blocked on `f` is `woken f`, `f` is cancelled with the scope's message and `wakeup t` is
+scheduled; every other task of `hitSet` (runnable: `created` host / `yielded`) keeps its state and
+has `_must_cancel` set with the scope's message; exactly these tasks got one `Task.cancel()`
+(`nAnyio`), and all other task records are unchanged. -/
+theorem C03_deliver_hits {st st' : State} {o : Nat} {out : Out} (hr : Reach st)
+    (hs : step st (.run (.deliver o)) = some (st', out)) (t : Nat) :
+    (hitSet st o t →
+      (st'.tasks t).nAnyio = (st.tasks t).nAnyio + 1 ∧
+      (∀ f, (st.tasks t).st = .blocked f →
+        (st'.tasks t).st = .woken f ∧ st'.futs f = .cancelled true ∧
+          Handle.wakeup t ∈ st'.ready) ∧
+      ((∀ f, (st.tasks t).st ≠ .blocked f) →
+        (st'.tasks t).st = (st.tasks t).st ∧ (st'.tasks t).mustCancel = true ∧
+          (st'.tasks t).mcAnyio = true)) ∧
+    (¬ hitSet st o t → st'.tasks t = st.tasks t) := by
+  have w := wf_reach hr
+  have d := di_reach hr
+  simp only [step] at hs
+  split at hs
+  · contradiction
+  · simp only [Option.some.injEq, Prod.mk.injEq] at hs
+    obtain ⟨rfl, _⟩ := hs
+    have w1 : WF { st with cur := st.cur.erase (.deliver o) } :=
+      wf_shrinkCur w _ (fun y hy => List.mem_of_mem_erase hy)
+    have b1 : BW { st with cur := st.cur.erase (.deliver o) } := d.bw
+    obtain ⟨h1, h2⟩ := deliver_task w1.tree b1 o t
+    constructor
+    · intro hh
+      have r := h1 (hitSet_congr (a := st) (b := { st with cur := st.cur.erase (.deliver o) })
+        rfl rfl rfl hh)
+      refine ⟨r.nAnyio, fun f hf => ?_, r.other⟩
+      obtain ⟨a, b, c, _⟩ := r.blocked f hf
+      exact ⟨a, b, c⟩
+    · intro hn
+      exact h2 (fun hh => hn (hitSet_congr (a := { st with cur := st.cur.erase (.deliver o) })
+        (b := st) rfl rfl rfl hh))
+
+/-- **C03_deliver_reschedules.**  `.run (.deliver o)` keeps `_cancel_handle` set, and schedules
+itself for the next cycle, iff some task that is not done is still in its reach; otherwise it
+clears `_cancel_handle`.  Nothing else about scopes changes. -/
+theorem C03_deliver_reschedules {st st' : State} {o : Nat} {out : Out} (hr : Reach st)
+    (hs : step st (.run (.deliver o)) = some (st', out)) :
+    ((st'.scopes o).deliver = true ↔ needs st o) ∧
+    (needs st o → Handle.deliver o ∈ st'.ready) ∧
+    (∀ x, ScopeStructEq (st.scopes x) (st'.scopes x)) := by
+  have w := wf_reach hr
+  simp only [step] at hs
+  split at hs
+  · contradiction
+  · simp only [Option.some.injEq, Prod.mk.injEq] at hs
+    obtain ⟨rfl, _⟩ := hs
+    have w1 : WF { st with cur := st.cur.erase (.deliver o) } :=
+      wf_shrinkCur w _ (fun y hy => List.mem_of_mem_erase hy)
+    have hn : needs { st with cur := st.cur.erase (.deliver o) } o ↔ needs st o := by
+      constructor
+      · rintro ⟨c, t, a, b, e⟩
+        exact ⟨c, t, reachDown_congr (a := { st with cur := st.cur.erase (.deliver o) }) (b := st)
+          (fun s => ⟨rfl, rfl, rfl, rfl⟩) a, b, e⟩
+      · rintro ⟨c, t, a, b, e⟩
+        exact ⟨c, t, reachDown_congr (a := st) (b := { st with cur := st.cur.erase (.deliver o) })
+          (fun s => ⟨rfl, rfl, rfl, rfl⟩) a, b, e⟩
+    have hf := deliver_flag w1.tree o
+    refine ⟨hf.trans hn, fun h => ?_, fun x =>
+      (frame_deliver ({ st with cur := st.cur.erase (.deliver o) } : State) o).scopes x⟩
+    have hd := hf.mpr (hn.mpr h)
+    have := deliver_sched_self _ o hd
+    rw [(frame_deliver _ o).cur] at this
+    rcases List.mem_append.mp this with hm | hm
+    · exact hm
+    · -- the handle found in `cur` would be a second copy; the scheduled one is in `ready`
+      rw [deliver_flag_self] at hd
+      unfold deliver
+      simp only [hd, if_true]
+      simp
+
+/-! ### 4. cycle structure -/
+
+/-- **C03_cycle.**  A new loop cycle begins only when the previous batch has been run completely
+(`cur = []`) and no task is running; it moves everything scheduled so far (`ready`, in order)
+into the new batch, followed by the due timers, and leaves `ready` empty: a handle scheduled
+during a cycle runs in the next cycle, before any later cycle begins. -/
+theorem C03_cycle {st st' : State} {now : Nat} {out : Out}
+    (hs : step st (.beginCycle now) = some (st', out)) :
+    st.cur = [] ∧ st.running = none ∧ st'.ready = [] ∧ st'.cycle = st.cycle + 1 ∧
+    (∃ due, st'.cur = st.ready ++ due) ∧ (∀ h ∈ st.ready, h ∈ st'.cur) ∧
+    st'.tasks = st.tasks ∧ st'.scopes = st.scopes ∧ st'.futs = st.futs := by
+  simp only [step] at hs
+  split at hs
+  · contradiction
+  · rename_i hg
+    simp only [Option.some.injEq, Prod.mk.injEq] at hs
+    obtain ⟨rfl, _⟩ := hs
+    have hc : st.cur = [] := by
+      cases hc : st.cur with
+      | nil => rfl
+      | cons a l => exact absurd (.inr (.inl (by simp [hc]))) hg
+    have hrn : st.running = none := by
+      cases hx : st.running with
+      | none => rfl
+      | some t => exact absurd (.inl (by simp [hx])) hg
+    exact ⟨hc, hrn, rfl, rfl, ⟨_, rfl⟩, fun h hm => List.mem_append_left _ hm, rfl, rfl, rfl⟩
+
+/-- **C03_run_in_batch.**  A callback runs only out of the current batch, with no task running. -/
+theorem C03_run_in_batch {st st' : State} {h : Handle} {out : Out}
+    (hs : step st (.run h) = some (st', out)) : h ∈ st.cur ∧ st.running = none := by
+  simp only [step] at hs
+  split at hs
+  · contradiction
+  · rename_i hg
+    refine ⟨Classical.byContradiction (fun hx => hg (.inr hx)), ?_⟩
+    cases hx : st.running with
+    | none => rfl
+    | some t => exact absurd (.inl (by simp [hx])) hg
+
+/-! ### 5. `checkpoint_if_cancelled` -/
+
+/-- **C03_chkif.**  A task spinning in `checkpoint_if_cancelled` (`Lib.chkIf`, suspended in its
+`sleep(0)`), when its `__step` runs: without a pending cancellation it yields again (still in
+`chkIf`, `__step` rescheduled); with one it leaves the helper raising exactly that
+cancellation.  It never completes normally. -/
+theorem C03_chkif {st st' : State} {t : Nat} {out : Out}
+    (hl : (st.tasks t).lib = .chkIf) (hy : (st.tasks t).st = .yielded)
+    (hs : step st (.run (.step t)) = some (st', out)) :
+    ((st.tasks t).mustCancel = false ∧ out = .susp ∧ (st'.tasks t).lib = .chkIf ∧
+      (st'.tasks t).st = .yielded ∧ Handle.step t ∈ st'.ready ∧ st'.running = none) ∨
+    ((st.tasks t).mustCancel = true ∧
+      out = .done (.one (if (st.tasks t).mcAnyio then .cancelAnyio else .cancelNative)) ∧
+      (st'.tasks t).lib = .none ∧ st'.running = some t ∧ (st'.tasks t).mustCancel = false) := by
+  simp only [step] at hs
+  split at hs
+  · contradiction
+  · simp only [hy, or_true, if_true] at hs
+    unfold runTask at hs
+    simp only [hy] at hs
+    unfold continueLib at hs
+    simp only [setTask_tasks, upd_same, hl] at hs
+    unfold resumeValue at hs
+    simp only [hy] at hs
+    cases hm : (st.tasks t).mustCancel
+    · left
+      simp only [hm, Bool.false_eq_true, if_false, Option.some.injEq, Prod.mk.injEq] at hs
+      obtain ⟨rfl, rfl⟩ := hs
+      simp [doYield, hl]
+    · right
+      simp only [hm, if_true, Option.some.injEq, Prod.mk.injEq] at hs
+      obtain ⟨rfl, rfl⟩ := hs
+      simp
+
+/-- a task enters the helper only inside an effectively cancelled scope, and then suspends -/
+theorem C03_chkif_enter {st st' : State} {out : Out}
+    (hs : step st .chkIfCancelled = some (st', out)) :
+    ∃ t, st.running = some t ∧
+      ((out = .susp ∧ (st'.tasks t).lib = .chkIf ∧ (st'.tasks t).st = .yielded ∧
+          ∃ s, (st.tasks t).scope = some s ∧ effCancelled st s = true) ∨
+       (out = .done .none ∧ st' = st)) := by
+  simp only [step] at hs
+  split at hs
+  · contradiction
+  · rename_i t hr
+    refine ⟨t, hr, ?_⟩
+    split at hs
+    · contradiction
+    · split at hs
+      · rename_i s hsc
+        split at hs
+        · rename_i he
+          simp only [Option.some.injEq, Prod.mk.injEq] at hs
+          obtain ⟨rfl, rfl⟩ := hs
+          exact .inl ⟨rfl, by simp [doYield], by simp [doYield], s, hsc, he⟩
+        · simp only [Option.some.injEq, Prod.mk.injEq] at hs
+          obtain ⟨rfl, rfl⟩ := hs
+          exact .inr ⟨rfl, rfl⟩
+      · simp only [Option.some.injEq, Prod.mk.injEq] at hs
+        obtain ⟨rfl, rfl⟩ := hs
+        exact .inr ⟨rfl, rfl⟩
+
+/-! ### 6. latency -/
+
+/- Full statement aimed at (DESIGN §5 C03_latency): from a state at the beginning of a cycle in
+which task `t` is `.blocked f` in a scope `c` with `effCancelled st c`, after the events of that
+cycle (all of `cur` run) `t` is `.woken f` with a cancelled future.
+
+Proved below (`C03_latency_partial`): the two links the bound consists of.  (a) In every reachable
+state, if `t` is blocked in a scope reached from an active cancelled scope `o`, a `deliver o`
+callback is in the batch of this cycle or scheduled for the next.  (b) When that callback runs and
+`t` is still blocked there, `t` is `woken f`, `f` is cancelled with the scope's message and
+`wakeup t` is scheduled for the next cycle (`C03_cycle`: it runs before any later cycle begins,
+and `resumeValue` of a task woken on a cancelled future is the cancellation).
+Missing for the full statement: (1) the passage from `effCancelled st c` to `∃ o, reachDown st o c`
+with `o` active and cancelled needs "every ancestor of an active scope is active", which is not
+among the established invariants of the model; (2) the composition over an arbitrary interleaving
+of the other callbacks of the cycle (each of them keeps `t` blocked in `c` or wakes/moves it
+itself) is not carried out; (3) "a blocked task has no `_must_cancel`" (`Task.__step` consumes it
+before suspending, `blockOn`) is taken as the hypothesis `hm` rather than derived. -/
+theorem C03_latency_partial {st : State} (hr : Reach st) {o c t f : Nat}
+    (ha : (st.scopes o).active = true) (hc : (st.scopes o).cancelCalled = true)
+    (hrd : reachDown st o c) (ht : t ∈ (st.scopes c).tasks)
+    (hb : (st.tasks t).st = .blocked f) (hm : (st.tasks t).mustCancel = false) :
+    Handle.deliver o ∈ st.ready ++ st.cur ∧
+    ∀ st' out, step st (.run (.deliver o)) = some (st', out) →
+      (st'.tasks t).st = .woken f ∧ st'.futs f = .cancelled true ∧
+        Handle.wakeup t ∈ st'.ready ∧ resumeValue st' t = .one .cancelAnyio := by
+  have hd : (st.tasks t).st ≠ .done := by rw [hb]; simp
+  refine ⟨C03_delivery_live_task hr ha hc hrd ht hd, ?_⟩
+  intro st' out hs
+  have hrun := (C03_run_in_batch hs).2
+  have hh : hitSet st o t := by
+    refine ⟨c, hrd, ht, (hitCancels_iff st c t).mpr ⟨hd, hm, by rw [hrun]; simp, .inr ?_, ?_⟩⟩
+    · rw [hb]; simp
+    · intro g; rw [hb]; simp
+  obtain ⟨h1, h2, h3⟩ := ((C03_deliver_hits hr hs t).1 hh).2.1 f hb
+  refine ⟨h1, h2, h3, ?_⟩
+  simp [resumeValue, h1, h2]
+
+/-! ### non-vacuity -/
+
+/-- The F4 history, part 1: the group scope (scope 0) is cancelled while its host is running, the
+host enters a shielded scope (scope 1) and yields; in the next cycle the delivery finds nobody in
+its reach (the host sits behind the shield) and goes idle: `_cancel_handle` is cleared and nothing
+is scheduled. -/
+example :
+    (runFrom step init
+      [.mkGroup, .groupEnter 0, .cancel 0, .mkScope true none, .enter 1, .yield,
+       .beginCycle 0, .run (.deliver 0), .run (.step 0)]).map
+      (fun st => ((st.scopes 0).active && (st.scopes 0).cancelCalled && (st.scopes 1).shield,
+        (st.scopes 0).deliver, (st.ready ++ st.cur).length,
+        (st.scopes 0).tasks.length, (st.scopes 0).children)) =
+      some (true, false, 0, 0, [1]) := by decide
+
+/-- The F4 history, part 2: `tg.start_soon(...)` from inside the shield.  The new task (task 1)
+sits in the cancelled group scope, not behind any shield; `_spawn` restarts the delivery:
+`_cancel_handle` is set again and a `deliver 0` callback is pending (`C03_delivery_live`). -/
+example :
+    (runFrom step init
+      [.mkGroup, .groupEnter 0, .cancel 0, .mkScope true none, .enter 1, .yield,
+       .beginCycle 0, .run (.deliver 0), .run (.step 0), .spawn 0]).map
+      (fun st => ((st.scopes 0).deliver, st.ready, (st.scopes 0).tasks, (st.tasks 1).st)) =
+      some (true, [.step 1, .deliver 0], [1], .created) := by decide
+
+/-- ... the child starts, enters its own scope (scope 2, child of the group scope) and blocks in
+`sleep(5)` on future 0 ... -/
+example :
+    (runFrom step init
+      [.mkGroup, .groupEnter 0, .cancel 0, .mkScope true none, .enter 1, .yield,
+       .beginCycle 0, .run (.deliver 0), .run (.step 0), .spawn 0,
+       .yield, .beginCycle 0, .run (.step 1), .sleep 5]).map
+      (fun st => ((st.tasks 1).st, ((st.tasks 1).scope, (st.scopes 2).parent),
+        (st.scopes 2).shield, st.cur, (st.scopes 0).deliver)) =
+      some (.blocked 0, (some 2, some 0), false, [.deliver 0, .step 0], true) := by decide
+
+/-- ... and the delivery of the same cycle interrupts it (`C03_deliver_hits`): woken, its future
+cancelled with the scope's message, wake-up scheduled, exactly one `Task.cancel()`; the host behind
+the shield (task 0) is not touched; the delivery stays scheduled. -/
+example :
+    (runFrom step init
+      [.mkGroup, .groupEnter 0, .cancel 0, .mkScope true none, .enter 1, .yield,
+       .beginCycle 0, .run (.deliver 0), .run (.step 0), .spawn 0,
+       .yield, .beginCycle 0, .run (.step 1), .sleep 5, .run (.deliver 0)]).map
+      (fun st => ((st.tasks 1).st, st.futs 0, st.ready,
+        ((st.tasks 1).nAnyio, (st.tasks 0).nAnyio),
+        !(st.tasks 0).mustCancel && (st.scopes 0).deliver)) =
+      some (.woken 0, .cancelled true, [.wakeup 1, .deliver 0], (1, 0), true) := by decide
+
+/-- ... one cycle later the child is resumed with the AnyIO cancellation. -/
+example :
+    (traceFrom step init
+      [.mkGroup, .groupEnter 0, .cancel 0, .mkScope true none, .enter 1, .yield,
+       .beginCycle 0, .run (.deliver 0), .run (.step 0), .spawn 0,
+       .yield, .beginCycle 0, .run (.step 1), .sleep 5, .run (.deliver 0), .run (.step 0),
+       .yield, .beginCycle 0, .run (.wakeup 1)]).map (fun p => (p.2.getLast?, p.1.running)) =
+      some (some (.done (.one .cancelAnyio)), some 1) := by decide
+
+/-- `checkpoint_if_cancelled` in a cancelled scope: without a delivery in between the task yields
+again (`C03_chkif`, first alternative) ... -/
+example :
+    (traceFrom step init
+      [.mkScope false none, .enter 0, .cancel 0, .chkIfCancelled, .beginCycle 0,
+       .run (.step 0)]).map
+      (fun p => (p.2.getLast?, (p.1.tasks 0).lib, (p.1.tasks 0).st, p.1.ready)) =
+      some (some .susp, .chkIf, .yielded, [.step 0]) := by decide
+
+/-- ... and once the delivery has run it leaves the helper with the cancellation (second
+alternative). -/
+example :
+    (traceFrom step init
+      [.mkScope false none, .enter 0, .cancel 0, .chkIfCancelled, .beginCycle 0,
+       .run (.deliver 0), .run (.step 0)]).map
+      (fun p => (p.2.getLast?, (p.1.tasks 0).lib, p.1.running)) =
+      some (some (.done (.one .cancelAnyio)), .none, some 0) := by decide
+
+/-- `C03_cycle`: a cycle cannot begin while the batch is not empty. -/
+example :
+    (runFrom step init
+      [.mkScope false none, .enter 0, .cancel 0, .chkIfCancelled, .beginCycle 0,
+       .beginCycle 0]).isNone = true := by decide
+
+end AnyioModel.Kernel
